@@ -2,6 +2,63 @@ package symgo
 
 // Models added for property C08 (no request can crash the server).
 
+import (
+	"go/token"
+)
+
+type c08B58Result struct {
+	bytes  []value
+	errMsg string
+	isErr  bool
+}
+
+var c08B58Memo = map[string]c08B58Result{}
+
+const c08B58Decode = "github.com/mr-tron/base58.Decode"
+
+// c08B58DecodeMemo is NOT a model: it runs the real base58.Decode (which must be a source root)
+// the first time a given concrete string is decoded and replays the recorded result afterwards
+// (the function is pure). Package initialisation of solana-go decodes ~40 well-known program ids
+// before every path; without the memo this dominates the run time.
+func c08B58DecodeMemo(fr *frame, args []value) value {
+	s := args[0].(string)
+	if r, ok := c08B58Memo[s]; ok {
+		if r.isErr {
+			return tuple{[]value(nil), newEngineError(r.errMsg, nil)}
+		}
+		return tuple{append([]value{}, r.bytes...), iface{}}
+	}
+	fn := fr.fn
+	if fn == nil || fn.Blocks == nil {
+		// base58 is not a source root of this obligation: behave exactly as without the memo
+		if fr.i.initializing && fn != nil {
+			return opaqueResult(fn)
+		}
+		panic(pathAbort{"unsupported", "no model for external function " + c08B58Decode + " (list github.com/mr-tron/base58 in roots)"})
+	}
+	delete(externals, c08B58Decode)
+	res := func() value {
+		defer func() { externals[c08B58Decode] = c08B58DecodeMemo }()
+		return callSSA(fr.i, fr.caller, token.NoPos, fn, args, nil)
+	}()
+	t := res.(tuple)
+	r := c08B58Result{}
+	if e := t[1].(iface); e.t != nil {
+		r.isErr = true
+		r.errMsg = errorMessage(fr, e)
+	} else {
+		b, _ := t[0].([]value)
+		for _, x := range b {
+			if _, ok := x.(uint8); !ok {
+				return res // not fully concrete: do not memoise
+			}
+		}
+		r.bytes = append([]value{}, b...)
+	}
+	c08B58Memo[s] = r
+	return res
+}
+
 func init() {
 	// txstatus.IsEnabled() is a build-time constant (false without the FFI build tag, true with
 	// it); both builds are explored.
@@ -9,4 +66,5 @@ func init() {
 		stub("txstatus.IsEnabled (model: either build, nondeterministic)")
 		return EX.Choose(2, "txstatus.IsEnabled") == 1
 	}
+	externals[c08B58Decode] = c08B58DecodeMemo
 }
